@@ -484,6 +484,15 @@ func (x *Idx) intKinds(fn *ssa.Function) {
 					if ky != NoKind && ky != KindV && cx && v.Op != token.SUB {
 						changed = x.setKind(v, ky) || changed
 					}
+					// a position of the index array plus an untyped offset (the corner number inside one group:
+					// indices[first+corner]) is still a position of the index array
+					if v.Op == token.ADD && !cx && !cy {
+						if kx == KindP && ky == NoKind && isPlainInt(v.Y) {
+							changed = x.setKind(v, KindP) || changed
+						} else if ky == KindP && kx == NoKind && isPlainInt(v.X) {
+							changed = x.setKind(v, KindP) || changed
+						}
+					}
 				}
 			case *ssa.Phi:
 				k := NoKind
@@ -523,6 +532,15 @@ func headerPhiOf(v ssa.Value, l *ssau.Loop) *ssa.Phi {
 			if _, ok := y.Y.(*ssa.Const); ok && (y.Op == token.ADD || y.Op == token.SUB) {
 				v = y.X
 				continue
+			}
+			// counter + group size <= Len: `for i := 0; i+size <= n; i += size`; the offset is loop-invariant
+			if y.Op == token.ADD {
+				if yp, isPhi := y.Y.(*ssa.Phi); !isPhi || !l.Blocks[yp.Block()] {
+					if yi, isInstr := y.Y.(ssa.Instruction); !isInstr || !l.Blocks[yi.Block()] {
+						v = y.X
+						continue
+					}
+				}
 			}
 			return nil
 		default:
@@ -768,3 +786,16 @@ func describeVal(v ssa.Value) string {
 // KindOf / IterKindOf expose the typing (used by SHAPE and PERM).
 func (x *Idx) KindOf(v ssa.Value) IntKind      { return x.kind[v] }
 func (x *Idx) IterKindOf(v ssa.Value) IterKind { return x.iter[v] }
+
+// isPlainInt: a loop counter or parameter of type int that carries no kind of its own (not a read from a table).
+func isPlainInt(v ssa.Value) bool {
+	b, ok := v.Type().Underlying().(*types.Basic)
+	if !ok || b.Kind() != types.Int {
+		return false
+	}
+	switch v.(type) {
+	case *ssa.Phi, *ssa.Parameter:
+		return true
+	}
+	return false
+}
